@@ -42,6 +42,77 @@ def make_exception(kind):
     return FaultInjected("injected evaluation failure")
 
 
+# ---------------------------------------------------------------------------------------------
+# process-wide virtual time: installed BEFORE atsim is imported, so that any clock read in the
+# repository (time.time/localtime/gmtime/strftime/ctime/asctime, datetime.now/utcnow/today,
+# date.today) - also through `from time import ...` at import time - sees the simulated clock
+# ---------------------------------------------------------------------------------------------
+_GLOBAL = {"clock": None, "installed": False, "default": 1700000000.0}
+
+
+def _vnow():
+    c = _GLOBAL["clock"]
+    return c.now if c is not None else _GLOBAL["default"]
+
+
+def install_global_clock():
+    if _GLOBAL["installed"]:
+        return
+    _GLOBAL["installed"] = True
+    import time as t
+    import datetime as d
+    real_gmtime, real_strftime, real_asctime = t.gmtime, t.strftime, t.asctime
+    real_dt, real_date = d.datetime, d.date
+
+    def v_time():
+        return _vnow()
+
+    def v_time_ns():
+        return int(_vnow() * 1e9)
+
+    def v_gmtime(secs=None):
+        return real_gmtime(_vnow() if secs is None else secs)
+
+    def v_localtime(secs=None):
+        return real_gmtime(_vnow() if secs is None else secs)      # time-zone independent
+
+    def v_strftime(fmt, tup=None):
+        return real_strftime(fmt, real_gmtime(_vnow()) if tup is None else tup)
+
+    def v_asctime(tup=None):
+        return real_asctime(real_gmtime(_vnow()) if tup is None else tup)
+
+    def v_ctime(secs=None):
+        return real_asctime(real_gmtime(_vnow() if secs is None else secs))
+
+    t.time, t.time_ns, t.gmtime, t.localtime = v_time, v_time_ns, v_gmtime, v_localtime
+    t.strftime, t.asctime, t.ctime = v_strftime, v_asctime, v_ctime
+
+    class VirtualDateTime(real_dt):
+        @classmethod
+        def now(cls, tz=None):
+            return cls.fromtimestamp(_vnow(), tz)
+
+        @classmethod
+        def utcnow(cls):
+            return cls.fromtimestamp(_vnow(), d.timezone.utc).replace(tzinfo=None)
+
+        @classmethod
+        def today(cls):
+            return cls.fromtimestamp(_vnow(), d.timezone.utc).replace(tzinfo=None)
+
+    class VirtualDate(real_date):
+        @classmethod
+        def today(cls):
+            x = real_dt.fromtimestamp(_vnow(), d.timezone.utc)
+            return cls(x.year, x.month, x.day)
+
+    VirtualDateTime.__name__ = "datetime"
+    VirtualDate.__name__ = "date"
+    d.datetime = VirtualDateTime
+    d.date = VirtualDate
+
+
 class SimClock(object):
     """Virtual wall clock; only the simulator advances it."""
 
@@ -94,12 +165,15 @@ class SimClock(object):
                                 (owe, "datetime", _DatetimeFacade())):
             self._installed.append((mod, attr, getattr(mod, attr)))
             setattr(mod, attr, repl)
+        self._prev_global = _GLOBAL["clock"]
+        _GLOBAL["clock"] = self
         return self
 
     def uninstall(self):
         for mod, attr, orig in reversed(self._installed):
             setattr(mod, attr, orig)
         self._installed = []
+        _GLOBAL["clock"] = getattr(self, "_prev_global", None)
 
 
 class SimFile(object):
